@@ -1,6 +1,6 @@
 (* Property C01 — every backend computes the defined PSSM score at every position.
    This file contains only the property theorems (closed by lemmas of ScoreProofs /
-   SimdProofs / Sse2Proofs / F32Proofs / CheckProofs / StripeBridge), statement pins and
+   SimdProofs / Sse2Proofs / F32Proofs / CheckProofs), statement pins and
    non-vacuity examples.
 
    Notation: L = length s, M = length pssm, R = seq_R C L = ceil(L / C), N = K - 1.
@@ -19,14 +19,13 @@
         16- and 32-column layouts
      4. IEEE-754 facts from Flocq: -inf absorbs, summation error bound, no-overflow condition
      5. the checker behind PROPFAIL: soundness, completeness on the model, end-to-end statement
-     6. composition with the striping model of C04 (any call history)
-     7. statement pins, non-vacuity examples (README data) *)
+     6. statement pins, non-vacuity examples (README data)
+   (the composition with the striping model of C04 is in C01History.v) *)
 From Coq Require Import List Arith Bool Lia ZArith Reals.
 From Flocq Require Import Core BinarySingleNaN.
 From LMBase Require Import Res ListX IEEE.
 From LMScore Require Import ScoreModel SimdModel GenAvx2 GenLane4 ScoreCheck ScoreProofs SimdProofs Sse2Proofs
-     F32Proofs CheckProofs ReadmeExample StripeBridge.
-From LMStripe Require NetModel StripeModel StripeAvx2.
+     F32Proofs CheckProofs ReadmeExample.
 Import ListNotations.
 
 (* Every cell (r, c) of the generic pipeline's full scan is the defined score of
@@ -520,63 +519,6 @@ Proof.
 Qed.
 
 (* ====================================================================== *)
-(* Composition with the striping model of property C04 (coq/stripe): the hypothesis
-   [Striped] is discharged for the state reached by ANY history of stripe / stripe_into /
-   configure / configure_wrap calls (any pipelines that exist for C) starting from
-   StripedSequence::default().  s = the sequence striped last; the history must have left
-   at least M - 1 look-ahead rows (e.g. by a final configure(&pssm)). *)
-
-Theorem C01_history_scan :
-  forall (T : Type) (add : T -> T -> T) (zero : T) (K C : nat)
-         (ops : list LMStripe.StripeAvx2.op) (pssm : list (list T)),
-    0 < C -> 0 < K -> forallb (LMStripe.StripeAvx2.op_typed C) ops = true ->
-    Forall (fun x => x < K) (LMStripe.StripeAvx2.last_seq [] ops) ->
-    pssm_wf K pssm -> 1 <= length pssm ->
-    length pssm - 1 <= LMStripe.StripeAvx2.wrap_after 0 ops ->
-    exists st,
-      LMStripe.StripeAvx2.run K C LMStripe.StripeModel.s_default ops = Ok st /\
-      rbind (generic_score add zero C pssm (of_stripe st)) (sc_unstripe C) =
-      Ok (map (score_def add zero (K - 1) pssm (LMStripe.StripeAvx2.last_seq [] ops))
-              (seq 0 (length (LMStripe.StripeAvx2.last_seq [] ops) + 1 - length pssm))).
-Proof.
-  intros T add zero K C ops pssm HC HK Ht Hs Hp HM Hw.
-  destruct (history_striped K C ops HC Ht) as [st [Hrun [Hst Hwrap]]].
-  exists st. split; [exact Hrun|].
-  apply (C01_score_unstripe T add zero C K pssm _ (of_stripe st)); auto.
-  rewrite Hwrap. exact Hw.
-Qed.
-
-Theorem C01_history_backends :
-  forall (K : nat) (ops : list LMStripe.StripeAvx2.op) (pssm : list (list f32))
-         (pads : nat -> list f32) (ar : arm),
-    0 < K -> forallb (LMStripe.StripeAvx2.op_typed 32) ops = true ->
-    Forall (fun x => x < K) (LMStripe.StripeAvx2.last_seq [] ops) ->
-    pssm_wf K pssm -> 1 <= length pssm ->
-    length pssm - 1 <= LMStripe.StripeAvx2.wrap_after 0 ops ->
-    length pssm <= length (LMStripe.StripeAvx2.last_seq [] ops) ->
-    exists st sc,
-      LMStripe.StripeAvx2.run K 32 LMStripe.StripeModel.s_default ops = Ok st /\
-      generic_score F32.add F32.zero 32 pssm (of_stripe st) = Ok sc /\
-      score_with (avx2_rows_into F32.add F32.zero avx2_permute_consts avx2_gather_consts K pssm pads)
-                 (of_stripe st) = Ok sc /\
-      score_with (sse2_rows_into F32.add F32.zero sse2_consts 32 pssm) (of_stripe st) = Ok sc /\
-      score_with (dispatch_rows_into F32.add F32.zero dispatch_score_f32 avx2_permute_consts
-                                     avx2_gather_consts sse2_consts K pssm pads ar) (of_stripe st) = Ok sc /\
-      rbind (Ok sc) (sc_unstripe 32) =
-      Ok (map (score_def F32.add F32.zero (K - 1) pssm (LMStripe.StripeAvx2.last_seq [] ops))
-              (seq 0 (length (LMStripe.StripeAvx2.last_seq [] ops) + 1 - length pssm))).
-Proof.
-  intros K ops pssm pads ar HK Ht Hs Hp HM Hw HL.
-  destruct (history_striped K 32 ops ltac:(lia) Ht) as [st [Hrun [Hst Hwrap]]].
-  rewrite <- Hwrap in Hw.
-  destruct (C01_backends_full_scan K pssm pads _ (of_stripe st) ar HK Hs Hp Hst HM Hw HL)
-    as [sc [E1 [E2 [E3 [E4 _]]]]].
-  exists st, sc. repeat split; auto.
-  rewrite <- E1.
-  apply (C01_score_unstripe f32 F32.add F32.zero 32 K pssm _ (of_stripe st)); auto. lia.
-Qed.
-
-(* ====================================================================== *)
 (* statement pins *)
 
 Check C01_score_avx2_eq :
@@ -670,13 +612,3 @@ Example C01_ieee_premises :
   no_pinf_nan (fold_left F32.add [F32.of_bits 0x3fc00000] F32.zero) /\
   classify [F32.of_bits 0x3fc00000; F32.ninf; F32.of_bits 0xc0257006] = HasNegInf.
 Proof. vm_compute. repeat split; try reflexivity; discriminate. Qed.
-
-(* the README calls as a history: to_striped() (dispatching pipeline) then configure(&pssm) *)
-Example C01_readme_history :
-  let ops := [LMStripe.StripeAvx2.OStripe (LMStripe.StripeAvx2.BDispatch LMStripe.NetModel.AAvx2) readme_seq;
-              LMStripe.StripeAvx2.OConfigure (length readme_pssm)] in
-  forallb (LMStripe.StripeAvx2.op_typed 32) ops = true /\
-  LMStripe.StripeAvx2.last_seq [] ops = readme_seq /\
-  length readme_pssm - 1 <= LMStripe.StripeAvx2.wrap_after 0 ops /\
-  length readme_pssm <= length (LMStripe.StripeAvx2.last_seq [] ops).
-Proof. vm_compute. repeat split; lia. Qed.
